@@ -1,6 +1,6 @@
 """C01 — encode-then-decode returns the same value in every transfer syntax."""
 import re, collections
-from .. import build, core, genmod, bundle, sexp, gfind
+from .. import build, core, genmod, bundle, sexp, gfind, l2k
 
 SYNTAXES = ("der", "uper", "oer", "xer", "cxer")
 
@@ -130,6 +130,15 @@ def run(ctx):
         b.cleanup()
     ctx.cov["evaluations"] += total
     ctx.cov["predicate"]["roundtrip"] = {"modules_built": built, "cases": total, "failure_classes": len(fails), "skipped_known_regions": dict(skipped), "F30_xer_newline": f30}
+    # K leg: the L2 Lean model (subject of the theorems) vs C on DER/BER
+    from . import c02
+    kcases = []
+    for m in mods[:2]:
+        env = dict(m["types"]); vg = genmod.ValGen(ctx.rng, env)
+        kcases.append((m, {n: vg.values(t, 5) for n, t in m["types"]}))
+    for m, vals in kcases:
+        l2k.k_leg(ctx, "l2-der:" + m["name"], [(m, vals)], [("der", "ber", "der", "ber")],
+                  skip=lambda syn, t, env, m=m: c02.der_skip(syn, t, env, m.get("tagdefault")) is not None)
     agg = collections.Counter()
     nviol = 0
     for (kind, why, sig), n in fails.items(): agg[(kind, why)] += n
